@@ -127,6 +127,32 @@ func FW[T any](p *T, name, site string) *T {
 	return p
 }
 
+// QuietRecording switches the race check on fields recorded without a
+// scheduling point (FRq/FWq) on or off.
+var QuietRecording = true
+
+// FRq records a read of the plain field at p for the happens-before race
+// check only: no scheduling point, so the explored schedule space is the same
+// as without it.
+func FRq[T any](p *T, name, site string) *T {
+	if QuietRecording && vsched.Active() {
+		id := vsched.AddrObj(unsafe.Pointer(p))
+		vsched.NameObj(id, name)
+		vsched.RecordAccess(id, false, site)
+	}
+	return p
+}
+
+// FWq is FRq for a write.
+func FWq[T any](p *T, name, site string) *T {
+	if QuietRecording && vsched.Active() {
+		id := vsched.AddrObj(unsafe.Pointer(p))
+		vsched.NameObj(id, name)
+		vsched.RecordAccess(id, true, site)
+	}
+	return p
+}
+
 // Finalizers controls whether SetFinalizer really installs finalizers.
 // GC-driven finalizers are nondeterminism the explorer cannot own, so the
 // rewritten packages run with them off unless a free-mode pass enables them.
